@@ -1,2 +1,375 @@
 import PV.Model.Stringify
 import PV.Generated.Prec
+import PV.Proofs.SyntaxStrFlatten
+import PV.Proofs.SyntaxBEq
+/-
+  C06 — `parse(str(e))` gives `e` back.
+
+  The property is violated by the code for a known list of (parent, child) shapes
+  (`known_findings.C06.jsonl`).  What is proved here, about the executable models of the
+  stringifier (`strE`, tied to `StringifyMapper`) and of the parser (`parseExpr …`, tied to
+  `pymbolic.parser.Parser`), for ARBITRARY precedence tables `P`, `S`:
+
+  * `roundtrip_partial`: on the fragment `InFragment P S` — a decidable predicate that checks, at
+    every node and for every child, one local condition `okTriple P S position childClass` read
+    off the two tables — the tree has a printed form, the printed form parses (the whole input,
+    with the fuel `parseTop` really uses) to a tree that is equal to the original one once nested
+    sums and products are flattened, and the reparsed tree prints to the same pieces;
+  * `roundtrip_flat_partial`: the same for trees whose sums and products are nested in any way
+    (the conditions are checked on the flattened tree), from `str_flatten_invariant`: the
+    stringifier does not see that nesting;
+  * `roundtrip_current` / `roundtrip_flat_current` / `bad_triples_current`: for the tables
+    regenerated from /repo the local condition fails for exactly the listed (position, child
+    class) pairs;
+  * `…_cex`: each of the listed pairs that is a genuine defect, and each excluded shape, replayed
+    on the models.
+
+  Not covered by theorems (correspondence and oracle only): `Min`/`Max`, common
+  subexpressions, wildcards, `inf`/`nan`, strings; a conditional as the LAST argument / element
+  / slice part (harmless, but the local condition does not distinguish the last position); "the same value in every environment" (it
+  follows from tree equality modulo flattening only through the evaluation semantics).
+-/
+namespace PV.C06
+open PV PV.Syntax
+
+/-- **Round trip, with the normal form.**  The token list of `str(e)` is parsed, completely and
+with the fuel of `parseTop`, to the parser's normal form `pnf e` of the tree (sums spliced into a
+left operand that is a sum, products right-nested). -/
+theorem roundtrip_normal_form {P : ParserPrec} {S : PrintPrec} {e : Expr} {ps : Pieces}
+    (h : InFragment P S e = true) (hs : strTop S e = .ok ps) :
+    parseTop P 0 (toks ps) = .ok (pnf e) := by
+  simp only [InFragment, Bool.and_eq_true] at h
+  exact parseTop_str h.1 h.2 hs
+
+/-- printing never fails on the fragment -/
+theorem print_total {P : ParserPrec} {S : PrintPrec} {e : Expr} (h : InFragment P S e = true) :
+    ∃ ps, strTop S e = .ok ps := by
+  simp only [InFragment, Bool.and_eq_true] at h
+  exact str_total h.1 S.none
+
+/-- **C06 on the fragment.**  A tree of the fragment has a string form; parsing it (the whole
+input, with the fuel `parseTop` really uses) yields a tree that is the same once nested sums and
+products are flattened, and the printed form of the reparsed tree is the first printed form. -/
+theorem roundtrip_partial {P : ParserPrec} {S : PrintPrec} {e : Expr}
+    (h : InFragment P S e = true) :
+    ∃ ps e', strTop S e = .ok ps ∧ parseTop P 0 (toks ps) = .ok e' ∧
+      flattenAssoc e' = flattenAssoc e ∧ strTop S e' = .ok ps := by
+  obtain ⟨ps, hs⟩ := print_total h
+  refine ⟨ps, pnf e, hs, roundtrip_normal_form h hs, ?_, ?_⟩
+  · simp only [InFragment, Bool.and_eq_true] at h
+    exact flatten_pnf h.1
+  · simp only [InFragment, Bool.and_eq_true] at h
+    rw [← hs]
+    exact str_pnf h.1 S.none
+
+/-- **The printed form of the reparsed tree is the first printed form** (same pieces, hence the
+same string), on the fragment. -/
+theorem str_idempotent {P : ParserPrec} {S : PrintPrec} {e : Expr} {ps : Pieces}
+    (h : InFragment P S e = true) (hs : strTop S e = .ok ps) :
+    ∃ e', parseTop P 0 (toks ps) = .ok e' ∧ strTop S e' = .ok ps := by
+  refine ⟨pnf e, roundtrip_normal_form h hs, ?_⟩
+  simp only [InFragment, Bool.and_eq_true] at h
+  rw [← hs]
+  exact str_pnf h.1 S.none
+
+/-- **the stringifier does not see the nesting of sums and products**: a tree without empty
+n-ary nodes and its flattened form print to the same pieces -/
+theorem str_flatten_invariant (S : PrintPrec) {e : Expr} (h : nonemptyNary e = true) :
+    strTop S (flattenAssoc e) = strTop S e :=
+  str_flatten S h S.none
+
+/-- **C06 with arbitrarily nested sums and products.**  If the flattened tree is in the fragment,
+the printed form of `e` parses to a tree that is equal to `e` once sums and products are
+flattened, and that prints to the same pieces. -/
+theorem roundtrip_flat_partial {P : ParserPrec} {S : PrintPrec} {e : Expr} {ps : Pieces}
+    (h : InFragmentFlat P S e = true) (hs : strTop S e = .ok ps) :
+    ∃ e', parseTop P 0 (toks ps) = .ok e' ∧ flattenAssoc e' = flattenAssoc e ∧
+      strTop S e' = .ok ps := by
+  simp only [InFragmentFlat, Bool.and_eq_true] at h
+  obtain ⟨hne, hfr⟩ := h
+  have hs' : strTop S (flattenAssoc e) = .ok ps := by rw [str_flatten_invariant S hne]; exact hs
+  refine ⟨pnf (flattenAssoc e), roundtrip_normal_form hfr hs', ?_, ?_⟩
+  · simp only [InFragment, Bool.and_eq_true] at hfr
+    rw [flatten_pnf hfr.1, flattenAssoc_idem]
+  · simp only [InFragment, Bool.and_eq_true] at hfr
+    rw [← hs']
+    exact str_pnf hfr.1 S.none
+
+/-- the normal form of a tree without nested sums/products whose products have two operands is
+the tree itself: the round trip is then the identity -/
+example : pnf (.nary .sum [.var "a", .nary .prod [.const (.int 2), .var "b"], .var "c"])
+    = .nary .sum [.var "a", .nary .prod [.const (.int 2), .var "b"], .var "c"] := by
+  decide +kernel
+
+/-! ### the tables of the current code -/
+
+open PV.Generated in
+/-- The local condition fails, for the precedence tables of the current code, for exactly these
+(position, child class) pairs:
+* a product as a non-last operand of a product, a sum as a non-first operand of a sum: NO
+  defect — the reparsed tree is nested differently but flattens to the same tree; these two
+  pairs cannot occur in a flattened tree and are covered by `roundtrip_flat_partial`;
+* `|`/`^`/`&` nodes as operands of a comparison (`x & y < z` reparses as `x & (y < z)`);
+* a bitwise/logical node as the right operand of the same operator (`a & (b & c)` prints
+  `a & b & c` and reparses left-nested), and `^` as the right operand of `|`
+  (`z | x ^ y` reparses as `(z | x) ^ y`);
+* a power under `~` / `not` (`~x**y` reparses as `(~x)**y`);
+* a conditional as an argument, a keyword value, or an element of a tuple / list / index tuple
+  (its else-branch is read at the lowest level and swallows the following `, …`);
+* a tuple as a non-tuple index or as the only element of a list (`[(a, b)]` is read as
+  `[a, b]`);
+* a conditional as a part of a slice (`v[x if c else y:z]`: the else-branch swallows `:z`; as
+  the LAST part it is harmless when only `]` follows, but the local condition does not know what
+  follows), and a slice as a part of a slice (`a:(b:c)` prints `a:b:c`). -/
+theorem bad_triples_current : badTriples parserPrec printPrec =
+    [(.left .times, .nary .prod),
+     (.left (.cmp .eq), .nary .bor), (.left (.cmp .eq), .nary .bxor), (.left (.cmp .eq), .nary .band),
+     (.right .plus, .nary .sum),
+     (.right .band, .nary .band), (.right .bxor, .nary .bxor),
+     (.right .bor, .nary .bor), (.right .bor, .nary .bxor),
+     (.right .land, .nary .land), (.right .lor, .nary .lor),
+     (.right (.cmp .eq), .nary .bor), (.right (.cmp .eq), .nary .bxor),
+     (.right (.cmp .eq), .nary .band),
+     (.unArg, .bin .pow),
+     (.arg, .ite), (.index, .tuple), (.elemFirst, .ite), (.elemRest, .ite),
+     (.slicePart, .ite), (.slicePart, .slice), (.sliceLast, .ite), (.sliceLast, .slice)] := by
+  decide
+
+/-- the local condition does not depend on which comparison operator it is -/
+theorem okTriple_cmp (P : ParserPrec) (S : PrintPrec) (o : CmpOp) (k : Kind) :
+    okTriple P S (.left (.cmp o)) k = okTriple P S (.left (.cmp .eq)) k ∧
+    okTriple P S (.right (.cmp o)) k = okTriple P S (.right (.cmp .eq)) k := by
+  constructor <;> rfl
+
+open PV.Generated in
+/-- **C06 for the current code**, on the fragment computed from the regenerated tables. -/
+theorem roundtrip_current {e : Expr} (h : InFragment parserPrec printPrec e = true) :
+    ∃ ps e', strTop printPrec e = .ok ps ∧ parseTop parserPrec 0 (toks ps) = .ok e' ∧
+      flattenAssoc e' = flattenAssoc e ∧ strTop printPrec e' = .ok ps :=
+  roundtrip_partial h
+
+open PV.Generated in
+/-- the same with arbitrarily nested sums and products -/
+theorem roundtrip_flat_current {e : Expr} {ps : Pieces}
+    (h : InFragmentFlat parserPrec printPrec e = true) (hs : strTop printPrec e = .ok ps) :
+    ∃ e', parseTop parserPrec 0 (toks ps) = .ok e' ∧ flattenAssoc e' = flattenAssoc e ∧
+      strTop printPrec e' = .ok ps :=
+  roundtrip_flat_partial h hs
+
+section examples
+open PV.Generated
+
+/-- a tree of the fragment that uses every covered shape -/
+def sample : Expr :=
+  .ite (.nary .bor [.var "x", .var "y"])
+    (.nary .land
+      [.cmp .lt (.bin .quot (.nary .sum [.var "a", .nary .prod [.var "b", .bin .pow (.var "c") (.const (.int 2))]])
+          (.const (.int (-3)))) (.var "d"),
+       .un .lnot (.callKw (.lookup (.var "o") "f") [.var "e", .tuple [.var "p", .var "q"],
+           .subscript (.var "w") (.slice [.var "i", .const .none, .bin .floordiv (.var "n") (.const (.int 2))])]
+         ["k", "l"] [.subscript (.var "v") (.tuple [.var "i", .const (.int 0)]), .list [.var "r"]])])
+    (.bin .lshift (.un .bnot (.subscript (.call (.var "g") []) (.var "z"))) (.const (.int 1)))
+
+example : InFragment parserPrec printPrec sample = true := by decide +kernel
+example : (strTop printPrec sample).map render
+    = .ok ("(a + b*c**2) / (-3) < d and not o.f(e, (p, q), w[i::n // 2], k=v[i, 0], l=[r]) " ++
+        "if x | y else ~g()[z] << 1") := by decide +kernel
+example : ∃ ps, strTop printPrec sample = .ok ps ∧ parseTop parserPrec 0 (toks ps) = .ok sample := by
+  refine ⟨_, rfl, ?_⟩
+  decide +kernel
+/-- float constants: without sign, with a sign in the exponent, negative (the repr check of the
+fragment is discharged on the concrete strings) -/
+theorem flt_plain : fltKind "2.5" 2 = some .atom := by simp [fltKind]
+theorem flt_exponent_sign : fltKind "1e-05" 100000 = some .sfloat := by simp [fltKind]
+theorem flt_negative : fltKind "-2.5" 2 = some .neg := by
+  have h1 : negFloatOk "-2.5" = true := by
+    simp only [negFloatOk, Bool.and_eq_true, decide_eq_true_eq, Bool.not_eq_true']
+    exact ⟨by decide +kernel, by decide +kernel⟩
+  simp [fltKind, h1]
+
+/-- `(-2.5) / (2.5 + 1e-05)` is in the fragment -/
+example : InFragment parserPrec printPrec
+    (.bin .quot (.const (.flt "-2.5" (-5) 2))
+      (.nary .sum [.const (.flt "2.5" 5 2), .const (.flt "1e-05" 1 100000)])) = true := by
+  simp only [InFragment, Printable, PrintableAll, okAt, kind, flt_plain, flt_exponent_sign,
+    flt_negative, Option.isSome_some]
+  decide
+end examples
+
+
+/-! ### the known violations, replayed on the models (current tables) -/
+
+/-- `str(e)` parses to `e'` -/
+def Reparses (P : ParserPrec) (S : PrintPrec) (e e' : Expr) : Prop :=
+  ∃ ps, strTop S e = .ok ps ∧ parseTop P 0 (toks ps) = .ok e'
+
+section cex
+open PV.Generated
+private abbrev x : Expr := .var "x"
+private abbrev y : Expr := .var "y"
+private abbrev z : Expr := .var "z"
+
+/-- `~x**y` reparses as `(~x)**y` -/
+theorem bnot_pow_cex :
+    Reparses parserPrec printPrec (.un .bnot (.bin .pow x y)) (.bin .pow (.un .bnot x) y) ∧
+    flattenAssoc (.bin .pow (.un .bnot x) y) ≠ flattenAssoc (.un .bnot (.bin .pow x y)) :=
+  ⟨⟨_, rfl, by decide +kernel⟩, by decide +kernel⟩
+
+/-- `not x**y` reparses as `(not x)**y` -/
+theorem lnot_pow_cex :
+    Reparses parserPrec printPrec (.un .lnot (.bin .pow x y)) (.bin .pow (.un .lnot x) y) ∧
+    flattenAssoc (.bin .pow (.un .lnot x) y) ≠ flattenAssoc (.un .lnot (.bin .pow x y)) :=
+  ⟨⟨_, rfl, by decide +kernel⟩, by decide +kernel⟩
+
+/-- `z | x ^ y` reparses as `(z | x) ^ y` -/
+theorem bor_bxor_cex :
+    Reparses parserPrec printPrec (.nary .bor [z, .nary .bxor [x, y]])
+      (.nary .bxor [.nary .bor [z, x], y]) ∧
+    flattenAssoc (.nary .bxor [.nary .bor [z, x], y])
+      ≠ flattenAssoc (.nary .bor [z, .nary .bxor [x, y]]) :=
+  ⟨⟨_, rfl, by decide +kernel⟩, by decide +kernel⟩
+
+/-- `x & y < z` reparses as `x & (y < z)` -/
+theorem cmp_band_cex :
+    Reparses parserPrec printPrec (.cmp .lt (.nary .band [x, y]) z)
+      (.nary .band [x, .cmp .lt y z]) ∧
+    flattenAssoc (.nary .band [x, .cmp .lt y z]) ≠ flattenAssoc (.cmp .lt (.nary .band [x, y]) z) :=
+  ⟨⟨_, rfl, by decide +kernel⟩, by decide +kernel⟩
+
+/-- `x | y < z` reparses as `x | (y < z)` -/
+theorem cmp_bor_cex :
+    Reparses parserPrec printPrec (.cmp .lt (.nary .bor [x, y]) z)
+      (.nary .bor [x, .cmp .lt y z]) ∧
+    flattenAssoc (.nary .bor [x, .cmp .lt y z]) ≠ flattenAssoc (.cmp .lt (.nary .bor [x, y]) z) :=
+  ⟨⟨_, rfl, by decide +kernel⟩, by decide +kernel⟩
+
+/-- `x ^ y < z` reparses as `x ^ (y < z)` -/
+theorem cmp_bxor_cex :
+    Reparses parserPrec printPrec (.cmp .lt (.nary .bxor [x, y]) z)
+      (.nary .bxor [x, .cmp .lt y z]) ∧
+    flattenAssoc (.nary .bxor [x, .cmp .lt y z]) ≠ flattenAssoc (.cmp .lt (.nary .bxor [x, y]) z) :=
+  ⟨⟨_, rfl, by decide +kernel⟩, by decide +kernel⟩
+
+/-- `z < x & y` reparses as `(z < x) & y` -/
+theorem cmp_right_band_cex :
+    Reparses parserPrec printPrec (.cmp .lt z (.nary .band [x, y]))
+      (.nary .band [.cmp .lt z x, y]) ∧
+    flattenAssoc (.nary .band [.cmp .lt z x, y]) ≠ flattenAssoc (.cmp .lt z (.nary .band [x, y])) :=
+  ⟨⟨_, rfl, by decide +kernel⟩, by decide +kernel⟩
+
+/-- a three-operand `|` node prints `z | x | y` and reparses left-nested -/
+theorem nary_nested_cex :
+    Reparses parserPrec printPrec (.nary .bor [z, x, y]) (.nary .bor [.nary .bor [z, x], y]) ∧
+    flattenAssoc (.nary .bor [.nary .bor [z, x], y]) ≠ flattenAssoc (.nary .bor [z, x, y]) :=
+  ⟨⟨_, rfl, by decide +kernel⟩, by decide +kernel⟩
+
+/-- `z & (x & y)` prints `z & x & y` and reparses left-nested -/
+theorem band_right_nested_cex :
+    Reparses parserPrec printPrec (.nary .band [z, .nary .band [x, y]])
+      (.nary .band [.nary .band [z, x], y]) ∧
+    flattenAssoc (.nary .band [.nary .band [z, x], y])
+      ≠ flattenAssoc (.nary .band [z, .nary .band [x, y]]) :=
+  ⟨⟨_, rfl, by decide +kernel⟩, by decide +kernel⟩
+
+/-- a one-operand sum prints as its operand -/
+theorem single_operand_cex :
+    Reparses parserPrec printPrec (.nary .sum [x]) x ∧
+    flattenAssoc x ≠ flattenAssoc (.nary .sum [x]) :=
+  ⟨⟨_, rfl, by decide +kernel⟩, by decide +kernel⟩
+
+private abbrev f : Expr := .var "f"
+private abbrev c : Expr := .var "c"
+
+/-- `f(x if c else y, z)`: the else-branch swallows `, z` -/
+theorem call_if_cex :
+    Reparses parserPrec printPrec (.call f [.ite c x y, z]) (.call f [.ite c x (.tuple [y, z])]) ∧
+    flattenAssoc (.call f [.ite c x (.tuple [y, z])]) ≠ flattenAssoc (.call f [.ite c x y, z]) :=
+  ⟨⟨_, rfl, by decide +kernel⟩, by decide +kernel⟩
+
+/-- `f(x if c else y, m=z)`: the swallowed keyword argument is a parse error -/
+theorem callKw_if_cex :
+    ∃ ps, strTop printPrec (.callKw f [.ite c x y] ["m"] [z]) = .ok ps ∧
+      parseTop parserPrec 0 (toks ps) = .error .parse :=
+  ⟨_, rfl, by decide +kernel⟩
+
+/-- `(x if c else y, z)` -/
+theorem tuple_if_cex :
+    Reparses parserPrec printPrec (.tuple [.ite c x y, z]) (.ite c x (.tuple [y, z])) ∧
+    flattenAssoc (.ite c x (.tuple [y, z])) ≠ flattenAssoc (.tuple [.ite c x y, z]) :=
+  ⟨⟨_, rfl, by decide +kernel⟩, by decide +kernel⟩
+
+/-- `[x if c else y, z]` -/
+theorem list_if_cex :
+    Reparses parserPrec printPrec (.list [.ite c x y, z]) (.list [.ite c x (.tuple [y, z])]) ∧
+    flattenAssoc (.list [.ite c x (.tuple [y, z])]) ≠ flattenAssoc (.list [.ite c x y, z]) :=
+  ⟨⟨_, rfl, by decide +kernel⟩, by decide +kernel⟩
+
+/-- a one-element index tuple prints as `z[x]` -/
+theorem one_tuple_index_cex :
+    Reparses parserPrec printPrec (.subscript z (.tuple [x])) (.subscript z x) ∧
+    flattenAssoc (.subscript z x) ≠ flattenAssoc (.subscript z (.tuple [x])) :=
+  ⟨⟨_, rfl, by decide +kernel⟩, by decide +kernel⟩
+
+/-- `z[x if c else y:z]`: the else-branch swallows `:z` -/
+theorem slice_if_cex :
+    Reparses parserPrec printPrec (.subscript z (.slice [.ite c x y, z]))
+      (.subscript z (.ite c x (.slice [y, z]))) ∧
+    flattenAssoc (.subscript z (.ite c x (.slice [y, z])))
+      ≠ flattenAssoc (.subscript z (.slice [.ite c x y, z])) :=
+  ⟨⟨_, rfl, by decide +kernel⟩, by decide +kernel⟩
+
+/-- a one-element slice prints without a colon: `z[x]` -/
+theorem one_element_slice_cex :
+    Reparses parserPrec printPrec (.subscript z (.slice [x])) (.subscript z x) ∧
+    flattenAssoc (.subscript z x) ≠ flattenAssoc (.subscript z (.slice [x])) :=
+  ⟨⟨_, rfl, by decide +kernel⟩, by decide +kernel⟩
+
+/-- a trailing omitted part is lost: `z[x::]` is read as `z[x:]`'s tree `Slice((x, None))` -/
+theorem slice_trailing_omitted_cex :
+    Reparses parserPrec printPrec (.subscript z (.slice [x, .const .none, .const .none]))
+      (.subscript z (.slice [x, .const .none])) ∧
+    flattenAssoc (.subscript z (.slice [x, .const .none]))
+      ≠ flattenAssoc (.subscript z (.slice [x, .const .none, .const .none])) :=
+  ⟨⟨_, rfl, by decide +kernel⟩, by decide +kernel⟩
+
+/-- a slice as a part of a slice prints as one longer slice -/
+theorem slice_in_slice_cex :
+    Reparses parserPrec printPrec (.subscript z (.slice [x, .slice [y, c]]))
+      (.subscript z (.slice [x, y, c])) ∧
+    flattenAssoc (.subscript z (.slice [x, y, c]))
+      ≠ flattenAssoc (.subscript z (.slice [x, .slice [y, c]])) :=
+  ⟨⟨_, rfl, by decide +kernel⟩, by decide +kernel⟩
+
+/-- NEW: a list whose only element is a tuple, `[(x, y)]`, is read as the list `[x, y]` -/
+theorem list_of_tuple_cex :
+    Reparses parserPrec printPrec (.list [.tuple [x, y]]) (.list [x, y]) ∧
+    flattenAssoc (.list [x, y]) ≠ flattenAssoc (.list [.tuple [x, y]]) :=
+  ⟨⟨_, rfl, by decide +kernel⟩, by decide +kernel⟩
+
+/-- NEW: a call node with an empty keyword dictionary prints as a plain call -/
+theorem callKw_empty_cex :
+    Reparses parserPrec printPrec (.callKw f [x] [] []) (.call f [x]) ∧
+    flattenAssoc (.call f [x]) ≠ flattenAssoc (.callKw f [x] [] []) :=
+  ⟨⟨_, rfl, by decide +kernel⟩, by decide +kernel⟩
+
+/-- the two pairs of `bad_triples_current` that are no defects are covered by
+`roundtrip_flat_partial` -/
+example : InFragmentFlat parserPrec printPrec
+    (.nary .sum [x, .nary .sum [y, .nary .prod [.nary .prod [x, y], z]]]) = true := by
+  decide +kernel
+
+/-- a left-nested product and a right-nested sum reparse with another nesting, the flattened
+trees agree -/
+example :
+    Reparses parserPrec printPrec (.nary .prod [.nary .prod [x, y], z])
+      (.nary .prod [x, .nary .prod [y, z]]) ∧
+    flattenAssoc (.nary .prod [x, .nary .prod [y, z]])
+      = flattenAssoc (.nary .prod [.nary .prod [x, y], z]) :=
+  ⟨⟨_, rfl, by decide +kernel⟩, by decide +kernel⟩
+example :
+    Reparses parserPrec printPrec (.nary .sum [x, .nary .sum [y, z]]) (.nary .sum [x, y, z]) ∧
+    flattenAssoc (.nary .sum [x, y, z]) = flattenAssoc (.nary .sum [x, .nary .sum [y, z]]) :=
+  ⟨⟨_, rfl, by decide +kernel⟩, by decide +kernel⟩
+end cex
+
+end PV.C06
